@@ -111,11 +111,20 @@ class ForLoopPulseTemplate(LoopPulseTemplate, MeasurementDefiner, ParameterConst
     def measurement_names(self) -> Set[str]:
         return LoopPulseTemplate.measurement_names.fget(self) | MeasurementDefiner.measurement_names.fget(self)
 
+    def _sum_index(self) -> sympy.Symbol:
+        """The bound symbol of the sums in duration and integral. It is the loop index itself unless the loop range
+        refers to a parameter of the same name (the range is evaluated outside of the loop): then the sum index would
+        capture that parameter in `start + sum_index*step` and a dummy symbol is used."""
+        loop_index = sympy.symbols(self._loop_index)
+        if self._loop_index in self._loop_range.parameter_names:
+            return sympy.Dummy(self._loop_index)
+        return loop_index
+
     @cached_property
     def duration(self) -> ExpressionScalar:
         step_size = self._loop_range.step.sympified_expression
         loop_index = sympy.symbols(self._loop_index)
-        sum_index = sympy.symbols(self._loop_index)
+        sum_index = self._sum_index()
 
         # replace loop_index with sum_index dependable expression
         body_duration = self.body.duration.sympified_expression.subs({loop_index: self._loop_range.start.sympified_expression + sum_index*step_size})
@@ -205,7 +214,7 @@ class ForLoopPulseTemplate(LoopPulseTemplate, MeasurementDefiner, ParameterConst
 
         step_size = self._loop_range.step.sympified_expression
         loop_index = sympy.symbols(self._loop_index)
-        sum_index = sympy.symbols(self._loop_index)
+        sum_index = self._sum_index()
 
         body_integrals = self.body.integral
         body_integrals = {
